@@ -2,6 +2,7 @@ package main
 
 import (
 	"fmt"
+	"go/token"
 	"go/types"
 	"sort"
 	"strings"
@@ -96,6 +97,22 @@ func (fr *Frame) doCallCommon(ins ssa.Instruction, c *ssa.CallCommon, pc *string
 	if vc.g.noEffect(names) {
 		return freshResults()
 	}
+	if p, ok := c.Value.(*ssa.Parameter); ok && fr.extracted {
+		// a function parameter of the function under verification handed on to the extracted function
+		cf := fr
+		for cf.extracted && cf.paramOrigin[p] != nil {
+			p = cf.paramOrigin[p]
+			cf = cf.parent
+		}
+		if cf.top && cf.c != nil && cf.c.Opts["pure-params"] != "" {
+			for _, n := range strings.Split(cf.c.Opts["pure-params"], ",") {
+				if strings.TrimSpace(n) == p.Name() {
+					vc.note("calls through the function parameter %s of %s treated as pure (every call site passes a closure under a pure contract)", p.Name(), shortKey(cf.fn.String()))
+					return freshResults()
+				}
+			}
+		}
+	}
 	if p, ok := c.Value.(*ssa.Parameter); ok && fr.c != nil && fr.c.Opts["pure-params"] != "" {
 		for _, n := range strings.Split(fr.c.Opts["pure-params"], ",") {
 			if strings.TrimSpace(n) == p.Name() {
@@ -103,6 +120,12 @@ func (fr *Frame) doCallCommon(ins ssa.Instruction, c *ssa.CallCommon, pc *string
 				return freshResults()
 			}
 		}
+	}
+	if callee != nil && mc == nil && (fr.top || fr.extracted) && vc.inlineDepth < 6 && vc.g.extractedFn(callee) {
+		vc.note("%s did not exist when the contracts were locked and has no contract: executed as part of the text of %s (loop ordinals continue at the call site)", shortKey(callee.String()), shortKey(fr.fn.String()))
+		fr.inlineAt = ins
+		defer func() { fr.inlineAt = nil }()
+		return fr.inlineCall(callee, mc, c, args, pc, st)
 	}
 	if callee != nil && vc.g.autoInline(callee, names) && vc.inlineDepth < 6 && len(callee.Blocks) > 0 {
 		if loops, err := findLoops(callee); err == nil && len(loops) == 0 {
@@ -122,8 +145,28 @@ func (fr *Frame) inlineCall(callee *ssa.Function, mc *ssa.MakeClosure, c *ssa.Ca
 	defer func() { vc.inlineDepth-- }()
 	sub := vc.newFrame(callee, fr)
 	sub.inlinedHelper = mc == nil && (fr.top || fr.inlinedHelper)
+	if fr.inlineAt != nil {
+		sub.extracted = true
+		sub.inlinedHelper = true
+		sub.callSite = fr.inlineAt
+		sub.loopBase = fr.siteBase[fr.inlineAt]
+		sub.alias = map[string]string{}
+		fr.inlineAt = nil
+	}
 	for i, p := range callee.Params {
 		if i < len(args) {
+			if pp, ok := c.Args[i].(*ssa.Parameter); ok && sub.extracted {
+				if sub.paramOrigin == nil {
+					sub.paramOrigin = map[*ssa.Parameter]*ssa.Parameter{}
+				}
+				sub.paramOrigin[p] = pp
+			}
+			if sub.extracted {
+				// the caller's name of the argument stays in force for the parameter (contracts were written over the caller's text)
+				if an := fr.sourceName(c.Args[i]); an != "" && an != p.Name() {
+					sub.alias[p.Name()] = an
+				}
+			}
 			sub.vals[p] = []string{args[i]}
 			if mcl, ok := fr.closures[c.Args[i]]; ok {
 				sub.closures[p] = mcl
@@ -142,6 +185,92 @@ func (fr *Frame) inlineCall(callee *ssa.Function, mc *ssa.MakeClosure, c *ssa.Ca
 		out = append(out, r[0])
 	}
 	return out
+}
+
+// sourceName: the source-level variable an SSA value stands for in this frame ("" if none).
+func (fr *Frame) sourceName(v ssa.Value) string {
+	switch a := v.(type) {
+	case *ssa.Phi:
+		if a.Comment != "" && a.Comment != "rangeindex" {
+			return fr.aliased(a.Comment)
+		}
+	case *ssa.Parameter:
+		return fr.aliased(a.Name())
+	case *ssa.UnOp:
+		if al, ok := a.X.(*ssa.Alloc); ok && a.Op == token.MUL && al.Comment != "" {
+			return fr.aliased(al.Comment)
+		}
+	}
+	return fr.aliased(fr.debugName(v))
+}
+
+func (fr *Frame) aliased(n string) string {
+	if o, ok := fr.alias[n]; ok {
+		return o
+	}
+	return n
+}
+
+// callerNames binds, for a frame of an extracted function, the names visible in the calling frames at the call sites
+// (outermost first, so that inner names shadow outer ones); the frame's own names are bound by the caller afterwards.
+func (fr *Frame) callerNames(env *SpecEnv, own map[string]bool) {
+	if !fr.extracted || fr.parent == nil {
+		return
+	}
+	p := fr.parent
+	p.callerNames(env, own)
+	bind := func(name string, t tv) {
+		if own[name] {
+			return
+		}
+		env.vars[name] = t
+		delete(env.lazy, name)
+	}
+	for name, v := range p.namedValuesAtInstr(fr.callSite) {
+		bind(name, tv{t: p.v1(v), ty: v.Type()})
+		if old, ok := p.alias[name]; ok {
+			bind(old, tv{t: p.v1(v), ty: v.Type()})
+		}
+	}
+	for _, l := range p.loops {
+		if !l.blocks[fr.callSite.Block()] {
+			continue
+		}
+		for _, phi := range l.phis {
+			if phi.Comment == "rangeindex" {
+				env.hash[fmt.Sprintf("i%d", l.ordinal)] = tv{t: p.v1(phi), ty: tInt}
+				continue
+			}
+			if phi.Comment != "" {
+				bind(phi.Comment, tv{t: p.v1(phi), ty: phi.Type()})
+				if old, ok := p.alias[phi.Comment]; ok {
+					bind(old, tv{t: p.v1(phi), ty: phi.Type()})
+				}
+			}
+		}
+	}
+	for a := range p.privAlloc {
+		if a.Comment != "" {
+			if l, ok := p.locs[a]; ok && !own[a.Comment] {
+				delete(env.vars, a.Comment)
+				env.lazy[a.Comment] = l
+				if old, ok := p.alias[a.Comment]; ok && !own[old] {
+					delete(env.vars, old)
+					env.lazy[old] = l
+				}
+			}
+		}
+	}
+	if !p.top {
+		for _, prm := range p.fn.Params {
+			if _, ok := p.vals[prm]; ok {
+				bind(prm.Name(), tv{t: p.v1(prm), ty: prm.Type()})
+				if old, ok := p.alias[prm.Name()]; ok {
+					bind(old, tv{t: p.v1(prm), ty: prm.Type()})
+				}
+			}
+		}
+	}
 }
 
 func (fr *Frame) bindFreeVars(sub *Frame, mc *ssa.MakeClosure) {
@@ -715,7 +844,7 @@ func (fr *Frame) runSites(ins ssa.Instruction, when string, pc string, st *State
 	top := fr
 	if !fr.top {
 		// only call sites: a helper's stores to objects it has just allocated are not stores of the function's own text
-		if !fr.inlinedHelper || (when != "call" && when != "aftercall") {
+		if !fr.inlinedHelper || when == "return" || (!fr.extracted && when != "call" && when != "aftercall") {
 			return pc
 		}
 		top = fr.topFrame()
@@ -742,6 +871,37 @@ func (fr *Frame) runSites(ins ssa.Instruction, when string, pc string, st *State
 			env.vars[g] = tv{t: vc.stGet0(st, "$g."+g), ty: vc.ghostT[g]}
 		}
 		// named local values (by debug name) visible at this instruction
+		if fr.extracted {
+			// code moved into a new function: its own names first, then what was visible at the call site(s)
+			own := fr.bindOwn(env)
+			set := func(name string, t tv) {
+				env.vars[name] = t
+				delete(env.lazy, name)
+				own[name] = true
+			}
+			for name, v := range fr.namedValuesAtInstr(ins) {
+				set(name, tv{t: fr.v1(v), ty: v.Type()})
+				if old, ok := fr.alias[name]; ok {
+					set(old, tv{t: fr.v1(v), ty: v.Type()})
+				}
+			}
+			for _, l := range fr.loops {
+				if !l.blocks[ins.Block()] {
+					continue
+				}
+				for _, phi := range l.phis {
+					if phi.Comment != "" && phi.Comment != "rangeindex" && instrDominates(phi, ins) {
+						if _, later := fr.namedValuesAtInstr(ins)[phi.Comment]; !later {
+							set(phi.Comment, tv{t: fr.v1(phi), ty: phi.Type()})
+							if old, ok := fr.alias[phi.Comment]; ok {
+								set(old, tv{t: fr.v1(phi), ty: phi.Type()})
+							}
+						}
+					}
+				}
+			}
+			fr.callerNames(env, own)
+		}
 		for name, v := range fr.namedValuesAtInstr(ins) {
 			if _, shadow := env.vars[name]; !shadow {
 				if _, lz := env.lazy[name]; !lz {
@@ -800,11 +960,11 @@ func (fr *Frame) runSites(ins ssa.Instruction, when string, pc string, st *State
 					v = ct.X
 				}
 				if mc, ok := v.(*ssa.MakeClosure); ok {
-					cn = shortKey(mc.Fn.(*ssa.Function).String())
+					cn = shortKey(vc.g.litName(mc.Fn.(*ssa.Function), fr.fn))
 				} else if mc, ok := fr.closures[v]; ok {
-					cn = shortKey(mc.Fn.(*ssa.Function).String())
+					cn = shortKey(vc.g.litName(mc.Fn.(*ssa.Function), fr.fn))
 				} else if f, ok := v.(*ssa.Function); ok {
-					cn = shortKey(f.String())
+					cn = shortKey(vc.g.litName(f, fr.fn))
 				}
 				env.vars[fmt.Sprintf("argfunc%d", i)] = tv{t: vc.d.strLit(cn), ty: tString}
 			}
@@ -960,6 +1120,47 @@ func (fr *Frame) runSites(ins ssa.Instruction, when string, pc string, st *State
 		}
 	}
 	return pc
+}
+
+// bindOwn binds the parameters and address-taken locals of the frame of an extracted function, overriding what the
+// function under verification bound under the same names; returns the set of names bound.
+func (fr *Frame) bindOwn(env *SpecEnv) map[string]bool {
+	own := map[string]bool{}
+	for _, prm := range fr.fn.Params {
+		if _, ok := fr.vals[prm]; ok {
+			for _, n := range []string{prm.Name(), fr.alias[prm.Name()]} {
+				if n != "" {
+					env.vars[n] = tv{t: fr.v1(prm), ty: prm.Type()}
+					delete(env.lazy, n)
+					own[n] = true
+				}
+			}
+		}
+	}
+	for _, b := range fr.fn.Blocks {
+		for _, ins := range b.Instrs {
+			a, ok := ins.(*ssa.Alloc)
+			if !ok || a.Comment == "" {
+				continue
+			}
+			var l *Loc
+			if x, ok := fr.locs[a]; ok {
+				l = x
+			} else if _, ok := fr.vals[a]; ok {
+				l = fr.vc.locOfPtr(fr.v1(a), a.Type())
+			} else {
+				continue
+			}
+			for _, n := range []string{a.Comment, fr.alias[a.Comment]} {
+				if n != "" {
+					delete(env.vars, n)
+					env.lazy[n] = l
+					own[n] = true
+				}
+			}
+		}
+	}
+	return own
 }
 
 func (fr *Frame) bindParams(env *SpecEnv) {
